@@ -90,6 +90,33 @@ def r09_1(rep: Report) -> None:
         else:
             rep.fail(rid, pc, 'shared segment/timeline.xml',
                      'manifest and patch do not render the SegmentTimeline from the same template')
+        # the timeline replacement is emitted whenever the manifest emits the timeline: the patch may
+        # only repeat conditions of the manifest (a loop over X there may be `if X` here)
+        tsm = TemplateSet(rep.repo)
+        tsm.analyse_root(f'manifests/{mname}')
+        tsp = TemplateSet(rep.repo)
+        tsp.analyse_root(f'patches/{pname}')
+        m_guards: set[str] = set()
+        for lit in tsm.literals:
+            if '<SegmentTimeline' in lit.text or 'SegmentTimeline>' in lit.text:
+                for g in lit.guards:
+                    m_guards.add(g)
+                    if g.startswith('for ') and ' in ' in g:
+                        m_guards.add(g.split(' in ', 1)[1])
+        p_lits = [lit for lit in tsp.literals if lit.template == f'patches/{pname}'
+                  and 'SegmentTimeline[1]' in lit.text]
+        if not p_lits:
+            raise AnalysisError(f'{pc}: no replace operation for the SegmentTimeline')
+        for lit in p_lits:
+            extra = [g for g in lit.guards if not g.startswith(('for ', 'with ')) and g not in m_guards]
+            if extra:
+                rep.fail(rid, pc, 'timeline replaced whenever the manifest has one',
+                         f'the SegmentTimeline replace operation is only emitted when `{extra[0]}`, a '
+                         'condition the manifest does not put on its SegmentTimeline: a patch can leave the '
+                         'client with a stale timeline while the full manifest has moved on', file=pc)
+            else:
+                rep.ok(rid, pc, 'timeline replaced whenever the manifest has one',
+                       f'guards {[g for g in lit.guards if not g.startswith(("for ", "with "))]} all occur in the manifest')
         # publishTime replace uses the same expression as MPD@publishTime
         mp = attr_expr(mt, 'MPD', 'publishTime')
         pp = {s.expr for s in ts.sinks if s.template == f'patches/{pname}'
@@ -308,7 +335,7 @@ def analyse(rep: Report) -> None:
         'template, PatchLocation), equality of the options ServePatch forces with the names the '
         'PatchLocation query omits, and the data path of originalPublishTime. The pairwise '
         'agreement of listed segments and monotonic windows is history/arithmetic and not decided.')
-    rep.rule('R09.1', 'patch template addresses what the manifest template emits', floor=8)
+    rep.rule('R09.1', 'patch template addresses what the manifest template emits', floor=9)
     rep.rule('R09.2', 'patch is rendered under the option vector of the manifest', floor=4)
     rep.rule('R09.3', 'originalPublishTime and patch capability agree between the two endpoints', floor=5)
     rep.rule('R09.4', 'loop wrap re-establishes (mod_segment = 1, seg_start_tc = origin_time)', floor=2)
